@@ -132,3 +132,25 @@ func (fc *FnCtx) excludeInResult(v Val, t types.Type) {
 		}
 	}
 }
+
+// isErrorSentinelPtr: a package-level `var ErrX = &T{...}` whose pointer type implements error. Like the errors.New
+// sentinels it is taken to keep its initial (non-nil) value.
+func (e *Engine) isErrorSentinelPtr(o *types.Var) bool {
+	if _, ok := o.Type().Underlying().(*types.Pointer); !ok {
+		return false
+	}
+	errT := types.Universe.Lookup("error").Type().Underlying().(*types.Interface)
+	if !types.Implements(o.Type(), errT) {
+		return false
+	}
+	init, ok := e.globInit[o]
+	if !ok {
+		return false
+	}
+	u, ok := init.(*ast.UnaryExpr)
+	if !ok || u.Op != token.AND {
+		return false
+	}
+	_, ok = u.X.(*ast.CompositeLit)
+	return ok
+}
